@@ -778,6 +778,23 @@ func stageRevocationSelfSignatures(
 // currently-trusted anchor signed the RRset: only revocation
 // processing is safe against that response, and the caller must not drive any
 // other state transition (AddPend seeding, Missing marking, etc.) from it.
+// withoutKeys returns keys minus the excluded ones (keys itself when nothing
+// is excluded).
+func withoutKeys(keys map[uint16][]*dns.DNSKEY, excluded map[*dns.DNSKEY]bool) map[uint16][]*dns.DNSKEY {
+	if len(excluded) == 0 {
+		return keys
+	}
+	out := make(map[uint16][]*dns.DNSKEY, len(keys))
+	for tag, set := range keys {
+		for _, k := range set {
+			if !excluded[k] {
+				out[tag] = append(out[tag], k)
+			}
+		}
+	}
+	return out
+}
+
 func verifyFetchedKeysWithWork(
 	rootKeys []dns.RR,
 	rrs []dns.RR,
@@ -809,6 +826,13 @@ func verifyFetchedKeysWithWork(
 	// could craft an unrelated self-signed revoked key that
 	// collides on tag.
 	revokedBootstrap := make(map[uint16][]*dns.DNSKEY)
+	// The anchors this very RRset revokes. Their signatures may complete
+	// the revocation (pass 2) and nothing else: left among the pass-1 keys,
+	// the still un-revoked copy in the trust set would verify a signature
+	// made with the revoked key's private half and labelled with its old
+	// tag, and the whole RRset would count as fully authenticated — by the
+	// key being revoked alone.
+	revokedNow := make(map[*dns.DNSKEY]bool)
 	for _, r := range fetchedkeys {
 		dnskey := r.(*dns.DNSKEY)
 		if dnskey.Flags&DNSKEYFlagRevoke == 0 {
@@ -818,6 +842,7 @@ func verifyFetchedKeysWithWork(
 			if sameKeyExceptRevoke(candidate, dnskey) {
 				tag := dnssec.KeyTag(dnskey)
 				revokedBootstrap[tag] = append(revokedBootstrap[tag], dnskey)
+				revokedNow[candidate] = true
 				break
 			}
 		}
@@ -829,7 +854,7 @@ func verifyFetchedKeysWithWork(
 	// Pass 1: non-revoked current trust anchors. A success here is
 	// full authentication — the caller may process any state
 	// transition against this RRset.
-	if verified, verifyErr := dnssec.VerifyRRSIGWithWork(rootzone, currentKeys, msg, work); verified {
+	if verified, verifyErr := dnssec.VerifyRRSIGWithWork(rootzone, withoutKeys(currentKeys, revokedNow), msg, work); verified {
 		return true, false, nil
 	} else if dnssec.IsWorkError(verifyErr) {
 		return false, false, verifyErr
